@@ -46,34 +46,44 @@ def rule_P2(ctx) -> None:
     if "FieldDescriptorProtoType" not in lib:
         raise AnalysisError("bundled lib: FieldDescriptorProtoType vanished")
     members = lib["FieldDescriptorProtoType"].values
-    # py_type: tuple name -> python type
+    # py_type evaluated for every descriptor type (the member bound symbolically; the PROTO_*_TYPES tables fold to
+    # tuples of member references): the Python type name it returns, <ref> for a type reference, or the raise
+    from ..absint import Interp
+    from ..src import SymName
+    from ..sym import A as _A, N as _N, dotted as _dotted
     py_type = models.func("FieldCompiler.py_type")
-    branch: Dict[str, str] = {}
-    for n in ast.walk(py_type):
-        if isinstance(n, ast.If) and isinstance(n.test, ast.Compare) and isinstance(n.test.ops[0], ast.In) and isinstance(n.test.comparators[0], ast.Name):
-            tup = n.test.comparators[0].id
-            ret = next((r for r in n.body if isinstance(r, ast.Return)), None)
-            if ret is not None:
-                branch[tup] = ret.value.value if isinstance(ret.value, ast.Constant) else "<ref>"
-    if len(branch) < 6:
-        raise AnalysisError(f"FieldCompiler.py_type: only {len(branch)} type branches recognised")
-    where: Dict[str, List[str]] = {}
-    for tup in branch:
-        for mname in _tuple_members(models, tup):
-            where.setdefault(mname, []).append(tup)
+    n_types = 0
     for mname in sorted(members):
         if mname == "TYPE_GROUP":
             continue
-        tups = where.get(mname, [])
+        n_types += 1
+        b = {_A(_A(_N("self"), "proto_obj"), "type"): SymName(f"FieldDescriptorProtoType.{mname}")}
+        paths = Interp(models, bindings=b).run(py_type)
+        ctx.count(len(paths))
+        got = set()
+        for p in paths:
+            if p.outcome == "raise":
+                got.add("raise")
+            elif p.value is not None and p.value[0] == "c":
+                got.add(p.value[1])
+            elif p.value is not None and p.value[0] == "call" and _dotted(p.value[1]).endswith("get_type_reference"):
+                got.add("<ref>")
+            else:
+                got.add("?")
+            if p.valuation:
+                got.add("?")
         want = SPEC_PY.get(mname, "int" if mname in INT_KINDS else None)
         name = f"py_type[{mname}]"
-        if len(tups) != 1:
-            ctx.refuted("P2", name, f"in={tups}", models.loc(py_type), f"descriptor type {mname} is in {len(tups)} of the PROTO_*_TYPES tuples consulted by py_type ({tups}): " +
-                        ("fields of this type make the plugin raise NotImplementedError" if not tups else "ambiguous classification"), f"a schema with a {mname[5:].lower()} field")
-        elif branch[tups[0]] != want:
-            ctx.refuted("P2", name, f"{branch[tups[0]]}!={want}", models.loc(py_type), f"{mname} is annotated as {branch[tups[0]]}; expected {want}", f"a schema with a {mname[5:].lower()} field")
+        if "?" in got:
+            ctx.inconclusive("P2", name, f"py_type does not evaluate to a definite result for {mname}", models.loc(py_type))
+        elif got == {"raise"}:
+            ctx.refuted("P2", name, "in=[]", models.loc(py_type), f"descriptor type {mname} is not classified by py_type: fields of this type make the plugin raise NotImplementedError",
+                        f"a schema with a {mname[5:].lower()} field")
+        elif got != {want}:
+            ctx.refuted("P2", name, f"{sorted(map(str, got))}!={want}", models.loc(py_type), f"{mname} is annotated as {sorted(map(str, got))}; expected {want}", f"a schema with a {mname[5:].lower()} field")
         else:
-            ctx.proved("P2", name, models.loc(py_type), f"{tups[0]} -> {want}")
+            ctx.proved("P2", name, models.loc(py_type), f"-> {want}")
+    ctx.floor("P2", "descriptor types through py_type", n_types, 17)
     # packed table (used by FieldCompiler.packed)
     packed = set(_tuple_members(models, "PROTO_PACKED_TYPES"))
     want_packed = {m for m in members if m not in ("TYPE_GROUP", "TYPE_STRING", "TYPE_BYTES", "TYPE_MESSAGE", "TYPE_ENUM")}
@@ -319,40 +329,66 @@ def rule_P5(ctx) -> None:
                     "any schema with an Optional/List field under typing.direct")
 
 
-def rule_P6(ctx) -> None:
+def field_compiler_paths(ctx):
+    """paths of read_protobuf_type through its field loop: [(is_map, is_oneof, pydantic, [compiler classes constructed in the iteration])]"""
+    from ..absint import Interp
+    from ..sym import dotted as _dotted
     parser = ctx.repo.mod(M_PARSER)
     fn = parser.func("read_protobuf_type")
-    loops = [n for n in ast.walk(fn) if isinstance(n, ast.For) and "field" in ast.unparse(n.iter)]
-    if len(loops) != 1:
+    inl = {}
+    if parser.has("_make_one_of_field_compiler"):
+        inl["_make_one_of_field_compiler"] = (parser, parser.func("_make_one_of_field_compiler"))
+    paths = Interp(parser, inline=inl, fork_ifexp=True).run(fn)
+    ctx.count(len(paths))
+    out = []
+    for p in paths:
+        if p.outcome == "raise" or not any(e.kind == "loop" for e in p.events):
+            continue
+        is_map = is_oneof = pyd = None
+        for k, v in p.valuation.items():
+            if k[0] == "call" and _dotted(k[1]) == "is_map":
+                is_map = v
+            elif k[0] == "call" and _dotted(k[1]) == "is_oneof":
+                is_oneof = v
+            elif k[0] == "a" and k[2] == "pydantic_dataclasses":
+                pyd = v
+        ctors = [_dotted(e.data[1]) for e in p.events if e.kind == "call" and e.loops and _dotted(e.data[1]).endswith("Compiler")]
+        out.append((is_map, is_oneof, pyd, ctors))
+    return parser, fn, out
+
+
+def rule_P6(ctx) -> None:
+    parser, fn, rows = field_compiler_paths(ctx)
+    lp = next((n for n in ast.walk(fn) if isinstance(n, ast.For)), fn)
+    if not rows:
         raise AnalysisError("read_protobuf_type: field loop not found")
-    lp = loops[0]
-    chain = lp.body[0] if len(lp.body) == 1 and isinstance(lp.body[0], ast.If) else None
-    if chain is None:
-        ctx.inconclusive("P6", "read_protobuf_type:classification-total", "field loop body is not a single if/elif/else chain", parser.loc(lp))
-        return
-    branches = []
-    cur: Optional[ast.If] = chain
-    total = False
-    while cur is not None:
-        branches.append((ast.unparse(cur.test), cur.body))
-        if len(cur.orelse) == 1 and isinstance(cur.orelse[0], ast.If):
-            cur = cur.orelse[0]
+    bad = []
+    seen = set()
+    for is_map, is_oneof, pyd, ctors in rows:
+        if is_map is None:
+            bad.append(("map-test-missing", ctors))
+            continue
+        if is_map:
+            want = {"MapEntryCompiler"}
+            seen.add("map")
+        elif is_oneof is None:
+            bad.append(("oneof-test-missing", ctors))
+            continue
+        elif is_oneof:
+            want = {"OneOfFieldCompiler", "PydanticOneOfFieldCompiler"}
+            seen.add("oneof")
         else:
-            if cur.orelse:
-                branches.append(("else", cur.orelse))
-                total = True
-            cur = None
-    ctors = []
-    for test, body in branches:
-        calls = [c for st in body for c in ast.walk(st) if isinstance(c, ast.Call) and (ast.unparse(c.func).endswith("Compiler") or "_make_one_of_field_compiler" in ast.unparse(c.func))]
-        ctors.append((test, [ast.unparse(c.func) for c in calls]))
-    ok = total and all(len(c) == 1 for _, c in ctors) and ctors[-1][1] == ["FieldCompiler"]
-    tests = [t for t, _ in ctors]
-    if ok and any("is_map" in t for t in tests) and any("is_oneof" in t for t in tests):
-        ctx.proved("P6", "read_protobuf_type:classification-total", parser.loc(lp), str(ctors))
+            want = {"FieldCompiler"}
+            seen.add("plain")
+        if len(ctors) != 1 or ctors[0] not in want:
+            bad.append((f"map={is_map},oneof={is_oneof}", ctors))
+    if bad:
+        ctx.refuted("P6", "read_protobuf_type:classification-total", str(bad[0]), parser.loc(lp),
+                    f"field classification is not map / oneof / plain with exactly one compiler per field and an unconditional plain fallback: {bad[:3]}", "a message with a plain field")
+    elif seen != {"map", "oneof", "plain"}:
+        ctx.inconclusive("P6", "read_protobuf_type:classification-total", f"only the classes {sorted(seen)} were found", parser.loc(lp))
     else:
-        ctx.refuted("P6", "read_protobuf_type:classification-total", str(ctors), parser.loc(lp),
-                    f"field classification is not map / oneof / plain with exactly one compiler per field and an unconditional plain fallback: {ctors}", "a message with a plain field")
+        ctx.proved("P6", "read_protobuf_type:classification-total", parser.loc(lp), f"{len(rows)} paths: map / oneof / plain, one compiler each")
     # each compiler appends itself to parent.fields exactly once
     models = ctx.repo.mod(M_MODELS)
     pi = models.func("FieldCompiler.__post_init__")
@@ -365,24 +401,63 @@ def rule_P6(ctx) -> None:
 
 def rule_P7(ctx) -> None:
     """the extra empty __init__.py files are disjoint from the generated package files"""
+    from ..absint import Interp
+    from ..sym import N as _N, A as _A, walk as _walk, show as _show
     parser = ctx.repo.mod(M_PARSER)
     fn = parser.func("generate_code")
-    assigns = [n for n in ast.walk(fn) if isinstance(n, ast.Assign) and len(n.targets) == 1 and isinstance(n.targets[0], ast.Name) and n.targets[0].id == "init_files"]
-    if not assigns:
-        ctx.inconclusive("P7", "generate_code:init-files-disjoint", "`init_files` computation not found", parser.loc(fn))
+    paths = Interp(parser, named_containers=True).run(fn)
+    ctx.count(len(paths))
+    OUT = _N("output_paths")
+    name = "generate_code:init-files-disjoint"
+
+    def mentions_init(t) -> bool:
+        return any(x == ("c", "__init__.py") for x in _walk(t))
+
+    def in_out(v):
+        return ("op", "in", v, OUT)
+
+    set_terms = set()      # form A: the set is one expression
+    adds = []              # form B: (path, added value)
+    for p in paths:
+        for k, v in p.locals.items():
+            if isinstance(v, tuple) and v and v[0] in ("op", "call") and mentions_init(v) and any(x[0] == "call" and x[1][0] == "n" and x[1][1] in ("$setcomp", "$listcomp", "$genexp") for x in _walk(v)):
+                set_terms.add(v)
+        for e in p.events:
+            if e.kind == "call" and e.data[1][0] == "a" and e.data[1][2] == "add" and e.data[1][1] != OUT and e.data[2] and mentions_init(e.data[2][0]) and e.loops:
+                adds.append((p, e))
+    loc = parser.loc(fn)
+    if not set_terms and not adds:
+        ctx.inconclusive("P7", name, "computation of the extra __init__.py files not found", loc)
         return
-    v = assigns[0].value
-    txt = ast.unparse(v)
-    disjoint = (isinstance(v, ast.BinOp) and isinstance(v.op, ast.Sub) and ast.unparse(v.right) == "output_paths") or "not in output_paths" in txt or ".difference(output_paths)" in txt
-    parents_ok = "path.parents" in txt and "path.parent.parents" not in txt
+    disjoint = True
+    parents_ok = True
+    why = ""
+    for t in set_terms:
+        comps = [x for x in _walk(t) if x[0] == "call" and x[1][0] == "n" and x[1][1] in ("$setcomp", "$listcomp", "$genexp") and mentions_init(x)]
+        sub = (t[0] == "op" and t[1] == "-" and t[3] == OUT) or (t[0] == "call" and t[1][0] == "a" and t[1][2] == "difference" and t[2] and t[2][0] == OUT)
+        filt = any(tag == "if" and c == ("op", "not", in_out(comp[2][0])) for comp in comps for tag, c in comp[3])
+        if not (sub or filt):
+            disjoint = False
+            why = _show(t)[:100]
+        if not any(x == _A(("elem", OUT), "parents") for x in _walk(t)):
+            parents_ok = False
+    for p, e in adds:
+        v = e.data[2][0]
+        guarded = p.valuation.get(in_out(v)) is False
+        later = any(ev.kind in ("call", "aug") and "output_paths" in _show(ev.data) and ("difference" in _show(ev.data) or ev.kind == "aug") and not ev.loops for ev in p.events)
+        if not (guarded or later):
+            disjoint = False
+            why = f"{_show(v)} is added without testing it against output_paths"
+        if not any(l == _A(("elem", OUT), "parents") for l in e.loops):
+            parents_ok = False
     if disjoint and parents_ok:
-        ctx.proved("P7", "generate_code:init-files-disjoint", parser.loc(assigns[0]))
+        ctx.proved("P7", name, loc, "set expression" if set_terms else f"{len(adds)} guarded additions")
     elif not disjoint:
-        ctx.refuted("P7", "generate_code:init-files-disjoint", "not-subtracted", parser.loc(assigns[0]),
-                    "the set of extra empty __init__.py files is not made disjoint from the generated package files: when one package is an ancestor of another the response names the same file twice (protoc rejects it / the empty file overwrites the package)",
-                    "packages `shop` and `shop.catalog` in one request")
+        ctx.refuted("P7", name, "not-subtracted", loc,
+                    "the set of extra empty __init__.py files is not made disjoint from the generated package files: when one package is an ancestor of another the response names the same file twice "
+                    f"(protoc rejects it / the empty file overwrites the package) [{why}]", "packages `shop` and `shop.catalog` in one request")
     else:
-        ctx.inconclusive("P7", "generate_code:init-files-disjoint", f"ancestor directories are not computed from path.parents: {txt[:80]}", parser.loc(assigns[0]))
+        ctx.inconclusive("P7", name, "ancestor directories are not computed from path.parents of every output path", loc)
 
 
 def rule_P8(ctx) -> None:
